@@ -359,6 +359,7 @@ impl Hist {
         run!(self.f.clone, "clone", self.check_clone(ev));
         let own_values = self.f.arena || (self.f.clone && matches!(op, Op::Replace(_))) || (self.f.panic && injected);
         run!(self.f.arena || self.f.clone || self.f.panic, "value-accounting", self.check_values(ev, op, own_values));
+        run!(self.f.arena, "consuming-iterators", self.check_consumers(ev));
         Flow::Continue
     }
 
@@ -385,6 +386,45 @@ impl Hist {
             format!("values/{}/after={}", kind, op_name(op)),
             format!("after {:?}: {} values are alive in the process, {} are held in the node arenas of the maps (difference was {} before the call): {}", op, live, phys, was, if skew > was { "values that no map owns any more were never dropped (leaked)" } else { "more values are held than exist: one value has two owners (bitwise copy) or was dropped while still stored" }),
         )]
+    }
+
+    /// C16: the consuming iterators of a clone (run to the end, finished by fold/last/count/nth, or
+    /// dropped half-way) must give back every value they took over
+    fn check_consumers(&mut self, ev: &mut Ev) -> Vec<(String, String)> {
+        if self.is_set || self.step_no % 2 == 1 {
+            return vec![];
+        }
+        let slot = self.slot;
+        let n = self.m.len();
+        let mut did = Vec::new();
+        for which in [Trav::IntoIter, Trav::IntoKeys, Trav::IntoValues] {
+            let (k, fin) = pick_fin(&mut self.g.rng, n);
+            crate::world::set_proto(k, fin);
+            let _ = self.w.trav(slot, which, None);
+            crate::world::clear_proto();
+            did.push(format!("{:?}: {} next() then {}", which, k, fin_name(fin)));
+        }
+        for _ in 0..3 {
+            let q = self.g.hkey(&self.m);
+            let (k, fin) = pick_fin(&mut self.g.rng, self.m.covered_by(q).len());
+            crate::world::set_proto(k, fin);
+            let _ = self.w.ql(slot, QL::IntoChildren, q);
+            crate::world::clear_proto();
+            did.push(format!("into_children({:?}): {} next() then {}", q, k, fin_name(fin)));
+        }
+        ev.count("values/consuming_iterator_probes", did.len() as u64);
+        let (live, phys) = match self.w.value_accounting() {
+            Some(x) => x,
+            None => return vec![],
+        };
+        let skew = live - phys as i64;
+        if skew == self.value_skew {
+            return vec![];
+        }
+        let was = self.value_skew;
+        self.value_skew = skew;
+        let kind = if skew > was { "leaked" } else { "owned-twice" };
+        vec![(format!("values/{}/consuming-iterators", kind), format!("after consuming clones of the map ({}): {} values alive in the process, {} held in the arenas (difference was {} before)", did.join("; "), live, phys, was))]
     }
 
 
@@ -1767,7 +1807,8 @@ pub fn canon_op(op: &Op) -> Op {
 
 pub fn pick_fin(rng: &mut Rng, n: usize) -> (usize, Fin) {
     let k = rng.below(n + 2);
-    let fin = match rng.below(7) {
+    let fin = match rng.below(8) {
+        7 => Fin::Drop,
         0 | 1 => Fin::Fold,
         2 => Fin::ForEach,
         3 => Fin::Collect,
@@ -1786,6 +1827,7 @@ pub fn fin_name(f: Fin) -> &'static str {
         Fin::Last => "last",
         Fin::Count => "count",
         Fin::Nth(_) => "nth",
+        Fin::Drop => "drop",
     }
 }
 
@@ -1818,6 +1860,7 @@ pub fn proto_eval(p: &ListObs, full: &[Item]) -> Option<String> {
                 return Some(format!("{} next() calls then last() = {:?}, plain traversal ends with {:?} (all: {:?})", po.k, po.last, rem.last(), full));
             }
         }
+        Fin::Drop => {}
         Fin::Count => {
             if po.count != Some(rem.len()) {
                 return Some(format!("{} next() calls then count() = {:?}, {} items remain", po.k, po.count, rem.len()));
